@@ -265,6 +265,7 @@ type xField struct {
 	typ     string
 	keys    bool
 	nostd   bool
+	cs      int // explicit cache size (0 = default)
 	rows    map[string]bool // row arguments used (as PQL literals)
 	intCols map[uint64]bool
 }
@@ -402,7 +403,7 @@ func (st *state) exec(l string) string {
 			return errClass(err)
 		}
 		if ix := st.idxs[ws[1]]; ix != nil {
-			ix.fields[ws[2]] = &xField{typ: ws[3], keys: ws[9] == "1" && ws[3] != "bool", nostd: ws[10] == "1", rows: map[string]bool{}, intCols: map[uint64]bool{}}
+			ix.fields[ws[2]] = &xField{typ: ws[3], keys: ws[9] == "1" && ws[3] != "bool", nostd: ws[10] == "1", cs: int(atou(ws[5])), rows: map[string]bool{}, intCols: map[uint64]bool{}}
 		}
 		return "ok"
 	case ws[0] == "dfld" && len(ws) == 3:
@@ -706,8 +707,11 @@ func (st *state) battery() []string {
 				}
 			default:
 				q(in, fmt.Sprintf("Rows(field=%s)", fn))
-				if f.typ == "set" || f.typ == "mutex" || f.typ == "default" {
-					q(in, fmt.Sprintf("TopN(%s, n=5)", fn))
+				// TopN without a limit and only while every written row fits the cache: which rows a
+				// full cache keeps (and which of several equal counts a limit cuts) is not determined
+				// by the data, so it cannot be compared across a restart
+				if (f.typ == "set" || f.typ == "mutex" || f.typ == "default") && (f.cs == 0 || len(f.rows) <= f.cs) {
+					q(in, fmt.Sprintf("TopN(%s)", fn))
 				}
 				for _, row := range sortedKeys(f.rows) {
 					if f.typ == "time" {
